@@ -37,7 +37,7 @@ CLASSES = (["rtype-" + t for t in domains.RELEASE_TYPES] + ["ctype-" + t for t i
            ["label-" + n for n in domains.LABEL_NAMES] + ["label-none"] +
            ["layered", "not-layered", "internal", "bp-set-not-layered", "version-freeform", "version-dotted",
             "final-true", "final-without-label", "id-created", "depth-3", "all-variant-types", "layered-product-variant",
-            "dashed-top-uid", "dashed-top-prefix-of-sibling", "paths-full", "paths-dropped", "no-variants", "many-variants"])
+            "dashed-top-uid", "dashed-top-prefix-of-sibling", "paths-full", "paths-dropped", "no-variants", "many-variants", "dashed-top-with-children"])
 CLASS_FLOORS = dict((c, 5) for c in CLASSES)
 CLASS_FLOORS["process-encoding-ansi_x3.4-1968"] = 1
 CLASS_FLOORS.update({"child-arch-strict-subset": 5, "vtype-addon": 5, "vtype-optional": 5, "vtype-variant": 5})
